@@ -1,15 +1,16 @@
 #!/bin/sh
-# usage: tools/confirm_seeded.sh <seed-name> <property> [worktree]
-# Confirms a sub-agent's seeded change in its scratch worktree and runs the property's quick check against it.
-ID="$1"; PROP="$2"; WT="${3:-/tmp/wt-$ID}"; SRC=/tmp/seeded/$ID
+# usage: tools/confirm_seeded.sh <seed-dir> <property> <worktree>
+# Confirms a sub-agent's seeded change in its scratch worktree (suite baseline with the patch, demo with and
+# without the patch) and runs the property's quick check against a scratch copy of /repo with the patch.
+SRC="$1"; PROP="$2"; WT="$3"
 set -e
 cd "$WT" && git checkout -q -- . && git apply "$SRC/patch.diff"
-B=$(/venv/bin/python /tmp/seedtools/baseline_check.py "$WT" | head -1)
+B=$(/venv/bin/python /tmp/seedtools/baseline_check.py "$WT" 2>/dev/null | head -1)
 cp "$SRC/demo.py" "$WT/demo.py"
 set +e
-PYTHONPATH="$WT" timeout 300 /venv/bin/python demo.py > /tmp/demo_with.txt 2>&1; WITH=$?
-git checkout -q -- . 
-PYTHONPATH="$WT" timeout 300 /venv/bin/python demo.py > /tmp/demo_without.txt 2>&1; WITHOUT=$?
+PYTHONPATH="$WT" timeout 600 /venv/bin/python demo.py > /tmp/demo_with.txt 2>&1; WITH=$?
+git checkout -q -- .
+PYTHONPATH="$WT" timeout 600 /venv/bin/python demo.py > /tmp/demo_without.txt 2>&1; WITHOUT=$?
 rm -f demo.py
 echo "baseline with patch: $B ; demo exit with patch=$WITH without=$WITHOUT"
 cd /verif
